@@ -196,6 +196,29 @@ def fresh_gen(seed):
     return g
 
 
+@st.composite
+def overlap_recipes(draw):
+    """Declared properties whose JSON names also match a patternProperties regex."""
+    kind = draw(st.sampled_from(["Element", "Object"]))
+    node = {"id": 1, "kind": kind, "kw": {}}
+    if kind == "Object":
+        node["name"] = "Foo"
+    pats = draw(st.lists(st.sampled_from(["^a", "a|b", "b$", "^.{2}$"]), min_size=1, max_size=2, unique=True))
+    def leaf(i):
+        k = draw(st.sampled_from(["Integer", "String", "Null", "Boolean", "Number"]))
+        kws = [{}, {}, {"default": 1}] + ([{"minimum": 2}] if k in ("Integer", "Number") else [])
+        return {"id": i, "kind": k, "kw": draw(st.sampled_from(kws))}
+
+    node["sub"] = {"patternProperties": {p: leaf(10 + i) for i, p in enumerate(pats)}}
+    names = draw(st.lists(st.sampled_from(["a", "ab", "b", "abc"]), min_size=1, max_size=2, unique=True))
+    node["props"] = [{"name": n, "source": None, "required": draw(st.booleans()),
+                      "element": draw(st.sampled_from([{"id": 20 + i, "kind": "Element", "kw": {}},
+                                                       {"id": 20 + i, "kind": "String", "kw": {}},
+                                                       {"id": 20 + i, "kind": "Element", "kw": {"default": "d"}}]))}
+                     for i, n in enumerate(names)]
+    return node
+
+
 class Machine(RuleBasedStateMachine):
     _sink = None
     _stats = None
@@ -205,7 +228,7 @@ class Machine(RuleBasedStateMachine):
         self.h = None
         self.counter = 0
 
-    @initialize(recipe=R.recipes(CFG), data=st.data())
+    @initialize(recipe=st.one_of(R.recipes(CFG), R.recipes(CFG), R.recipes(CFG), overlap_recipes()), data=st.data())
     def init(self, recipe, data):
         self.h = Harness(recipe)
         # every history starts with validations, so that later reconfigurations
@@ -214,7 +237,9 @@ class Machine(RuleBasedStateMachine):
             self._do({"op": "validate", "value": value})
 
     def _do(self, op):
-        fails = self.h.apply(op)
+        finished, fails = runner.time_limited(lambda: self.h.apply(op), self._stats, "step")
+        if not finished:
+            return
         unknown = runner.triage(PID, self.h.case(), fails, self._stats)
         if unknown:
             runner.record_violation(self._sink, self.h.case(), unknown)
